@@ -191,7 +191,7 @@ class SchemaErrors(ReducedPickleExceptionBase):
         super().__init__(failure_cases_metadata.message)
 
     def __str__(self):
-        return json.dumps(self.message, indent=4)
+        return json.dumps(self.message, indent=4, default=str)
 
 
 class PysparkSchemaError(ReducedPickleExceptionBase):
